@@ -34,18 +34,18 @@ def specTheirChanged (my other : List (Nat × Nat)) : List Nat :=
   (my.filter fun e => match lookupHead other e.1 with | some h => h ≠ e.2 ∧ h > e.2 | none => false).map (·.1)
 
 /-- the canonical index for a sorted element list -/
-def canon {D} (A : DigAlg D) (p : Params) (sl : List Elem) : Index D := ⟨p, sl, buildTop A p sl⟩
+def canon {D} (A : DigAlg D) (S : Splitter) (p : Params) (sl : List Elem) : Index D := ⟨p, sl, buildTop A S p sl⟩
 
 /-- operations of a history -/
 inductive Op where
   | set (es : List Elem)
   | remove (id hash : Nat)
 
-def Index.step {D} (A : DigAlg D) (ix : Index D) : Op → Index D
-  | .set es => ix.set A es
-  | .remove id h => (ix.remove A id h).getD ix
+def Index.step {D} (A : DigAlg D) (S : Splitter) (ix : Index D) : Op → Index D
+  | .set es => ix.set A S es
+  | .remove id h => (ix.remove A S id h).getD ix
 
-def Index.run {D} (A : DigAlg D) (ix : Index D) (ops : List Op) : Index D := ops.foldl (Index.step A) ix
+def Index.run {D} (A : DigAlg D) (S : Splitter) (ix : Index D) (ops : List Op) : Index D := ops.foldl (Index.step A S) ix
 
 /-- the skip list as a pure function of the history (no tree involved) -/
 def slStep (sl : List Elem) : Op → List Elem
